@@ -93,16 +93,33 @@ Theorem c16_valid_after_refuted :
 Proof. exact valid_after_full_refuted. Qed.
 Print Assumptions c16_valid_after_refuted.
 
-(* the frame, for every migration, every target and every tx: outside the members the migrations are written for
-   (flow: nodes, localization, language, spec_version; node: actions, router; action: templating, template,
-   template_variables, name, category; router: result_name, categories) a migrated definition is the source -- a member
-   that no catalogue path starts at is the same JSON, any other keeps its shape (same constructors, array lengths,
-   object keys in order) and each of its texts is the original with tx applied zero or more times *)
+(* the frame, for every migration, every target and every tx (flow_frame, proofs/MigrateFrameProofs.v):
+   - flow: every member other than nodes, localization, language, spec_version is the same JSON;
+   - node: every member other than actions, router is the same JSON; actions and router correspond one to one;
+   - action, BY ITS TYPE t (the type itself never changes): let fp(t) = action_fp t -- templating, template,
+     template_variables when t = send_msg (13.1, 13.4, 13.5), name and category when t = set_run_result (13.6), nothing for
+     any other type -- and hd(t) = row_heads catalog_actions t, the first steps of the catalogue paths of t's own row (the
+     only members Migrate13_3 can reach in an action of that type; regenerated from specdata/templates.json on every run).
+     A member outside fp(t) and hd(t) is the SAME JSON; a member outside fp(t) keeps its shape (constructors, array
+     lengths, object keys in order) and each of its texts is the original with tx applied zero or more times.
+     So e.g. set_contact_name.name (in hd, not in fp) can only change by tx; call_webhook.result_name, open_ticket.topic,
+     the name of any action that is not a set_run_result or set_contact_name ... (neither) cannot change at all
+     (Examples frame_examples);
+   - router: the same with fp = result_name, categories (13.6) and hd = row_heads catalog_routers (type of the router). *)
 Theorem c16_frame : forall tx j to fresh j' fresh',
   migrate_to tx j to fresh = (MOut j', fresh') ->
   exists f f', j = JObj f /\ j' = JObj f' /\ flow_frame tx f f'.
 Proof. exact migrate_frame. Qed.
 Print Assumptions c16_frame.
+
+(* what the per-type frame says about one action: corollary of c16_frame's definition, for direct use *)
+Theorem c16_action_frame : forall tx a a',
+  action_frame tx a a' ->
+  type_of a' = type_of a
+  /\ (forall k, ~ In k (action_fp (type_of a)) -> ~ In k (row_heads catalog_actions (type_of a)) -> olookup k a' = olookup k a)
+  /\ (forall k, ~ In k (action_fp (type_of a)) -> orel tx (olookup k a) (olookup k a')).
+Proof. exact action_frame_says. Qed.
+Print Assumptions c16_action_frame.
 
 (* templates preserved, PARTIAL, for an arbitrary tx: Migrate13_3 gives back every member of the definition other than
    `localization` in its shape, every text in it being the original with tx applied zero or more times (more than once
@@ -133,6 +150,22 @@ Theorem c16_translations_rewritten_once : forall tx p m loc o,
   fst (rewrite_path tx loc o p) = option_map (rewrite_translations tx (object_uuid o) m) loc.
 Proof. exact translations_rewritten_once. Qed.
 Print Assumptions c16_translations_rewritten_once.
+
+(* the same one level down: a catalogue path <k>.<m> where member k of the action holds an object c with unique keys (the
+   templating object and its variables: ".templating.variables[*]", Example rewritten_once_below_applies): the
+   translations of (uuid of c, m) are rewritten exactly once when c has a uuid, whether or not c has m, and the
+   localization is otherwise untouched.  Paths through an array of containers (".cases[*].arguments[*]",
+   ".groups[*].name_match") are not covered by a theorem: correspondence and direct oracle. *)
+Theorem c16_translations_rewritten_once_below : forall tx p parent k m loc o c,
+  steps_of p = Some [k; m] ->
+  split_last_dot (trim_suffix star_suffix (s p)) = Some (parent, m) -> parent <> [] ->
+  parse_path (dollar ++ parent) = Some [k] ->
+  str_eqb k star = false -> str_eqb m star = false -> str_eqb m k_uuid = false -> nonempty m = true ->
+  NoDup (map fst o) -> NoDup (map fst c) -> olookup k o = Some (JObj c) ->
+  fst (rewrite_path tx loc o p)
+  = if nonempty (object_uuid c) then option_map (rewrite_translations tx (object_uuid c) m) loc else loc.
+Proof. exact translations_rewritten_once_below. Qed.
+Print Assumptions c16_translations_rewritten_once_below.
 
 Theorem c16_translation_rewritten : forall tx uuid prop lt,
   get_translation uuid prop (rewrite_language tx uuid prop lt) = option_map (map tx) (get_translation uuid prop lt).
